@@ -53,10 +53,22 @@ package flowcontrol
 // server-side limiter, and the resize helper is only handed an existing one.
 //@ func NewGlobalFlowControl props C16
 //@   panics-never
-//@   modifies nothing
+//@   modifies rlq, rlb
 //@   ensures [non_nil_for_global] schema.GlobalMaxRequestsInflight != nil || schema.GlobalTokenBucket != nil ==> result != nil
 
 //@ func ResizeGlobalFlowControl props C16
 //@   requires [fc] schema.GlobalMaxRequestsInflight != nil || schema.GlobalTokenBucket != nil ==> fc != nil
 //@   panics-never
 //@   modifies gfcsize[fc]
+
+// The server-side token bucket is an x/time/rate limiter built with exactly the schema's (qps, burst): at construction, and
+// again whenever Resize sees a different pair; an unchanged pair keeps the limiter (and the tokens already spent) (C08).
+//@ func newTokenBucketFlowControl props C08
+//@   modifies rlq, rlb
+//@   ensures [wired] typeis(result, "*globalTokenBucket") && unbox(result, "*globalTokenBucket") != nil && fresh(unbox(result, "*globalTokenBucket")) && rlq[unbox(result, "*globalTokenBucket").limiter] == real(qps) && rlb[unbox(result, "*globalTokenBucket").limiter] == burst && unbox(result, "*globalTokenBucket").qps == qps && unbox(result, "*globalTokenBucket").burst == burst
+//@ func (*globalTokenBucket).Resize props C08
+//@   requires [wired] f.limiter != nil && rlq[f.limiter] == real(f.qps) && rlb[f.limiter] == f.burst
+//@   modifies f.limiter, f.qps, f.burst, rlq, rlb
+//@   ensures [wired] f.limiter != nil && rlq[f.limiter] == real(n) && rlb[f.limiter] == burst && f.qps == n && f.burst == burst
+//@   ensures [kept_if_same] old(f.qps) == n && old(f.burst) == burst ==> f.limiter == old(f.limiter) && !result
+//@   ensures [reported] result == (old(f.qps) != n || old(f.burst) != burst)
